@@ -82,7 +82,11 @@ Fixpoint init_vis (pushed : list var) (p : alg) : bool :=
   match p with
   | BGP _ | Values _ => false
   | Join _ a b | Union a b | Minus a b => init_vis pushed a || init_vis pushed b
-  | LeftJoin _ a b e => bad e a || init_vis pushed a || init_vis pushed b
+  | LeftJoin _ a b e =>
+      (* the second evaluation of OPTIONAL's right side cannot forget initBindings either
+         (QueryContext re-adds them to every context it builds) *)
+      bad e a || existsb (fun v => memv v (allvars b) && negb (memv v (cert a))) pushed
+      || init_vis pushed a || init_vis pushed b
   | Filter _ _ e q => bad e q || init_vis pushed q
   | Extend _ q _ e => bad e q || init_vis pushed q
   | Project q _ | Graph _ q | Distinct q => init_vis pushed q
